@@ -3,6 +3,9 @@ package main
 import (
 	"fmt"
 	"go/types"
+	"os"
+	"regexp"
+	"sort"
 	"strings"
 
 	"golang.org/x/tools/go/ssa"
@@ -97,6 +100,11 @@ func (f *frame) staticCall(at ssa.Instruction, fn *ssa.Function, args []T, c *ss
 		f.unlock(at, args[0], c, st)
 		return nil
 	}
+	if strings.HasSuffix(name, "/pkg/pool.Pool).Parallelize") && len(c.Args) == 3 {
+		if rs, ok := f.parallelize(at, c, args, st); ok {
+			return rs
+		}
+	}
 	// closures: bind free variables
 	if mc, ok := c.Value.(*ssa.MakeClosure); ok {
 		return f.inlineOrHavoc(at, fn, args, mc, c, st)
@@ -108,6 +116,9 @@ func (f *frame) staticCall(at ssa.Instruction, fn *ssa.Function, args []T, c *ss
 	ct := e.db.byFunc[name]
 	if ct == nil && origin != fn {
 		ct = e.db.byFunc[origin.String()]
+	}
+	if ct != nil && ct.Fn != nil && ct.Inline && !f.inStack(fn) && len(fn.Blocks) > 0 {
+		return f.inline(at, fn, args, nil, st)
 	}
 	if ct != nil && ct.Fn != nil {
 		// value-receiver method called through nil pointer wrappers etc. are handled by SSA itself
@@ -156,6 +167,9 @@ func (f *frame) inlineOrHavoc(at ssa.Instruction, fn *ssa.Function, args []T, mc
 	}
 	sig := fn.Signature
 	if inModule {
+		if os.Getenv("GOVC_DEBUG") != "" {
+			fmt.Fprintf(os.Stderr, "not inlined: %s blocks=%d instack=%v depth=%d instrs=%d\n", relName(fn), len(fn.Blocks), f.inStack(fn), f.depth, countInstrs(fn))
+		}
 		e.note("module function without contract, not inlined (havoc): " + relName(fn))
 		samePkg := fn.Pkg != nil && f.root.fn.Pkg != nil && fn.Pkg == f.root.fn.Pkg
 		if samePkg {
@@ -167,10 +181,82 @@ func (f *frame) inlineOrHavoc(at ssa.Instruction, fn *ssa.Function, args []T, mc
 			return f.freshResults(sig, st)
 		}
 	} else {
+		if rs, ok := f.numLibCall(at, fn, args, c, st); ok {
+			return rs
+		}
 		e.assumed["A-EXT: "+fn.String()] = true
 	}
 	f.havocOutside(st, c, args, false)
 	return f.freshResults(sig, st)
+}
+
+// Big-number libraries (A-LIB-NUM): a method panics on a nil receiver or nil pointer argument
+// (obligation), computes on objects whose contents are not modelled, may write into byte slices
+// it is given, and returns non-nil pointers except for the listed functions.
+var numLibPkgs = map[string]bool{"github.com/cronokirby/saferith": true, "math/big": true}
+
+// arguments (by index, receiver = 0) that may be nil
+var numLibNilOK = map[string]map[int]bool{
+	"(*math/big.Int).GCD": {1: true, 2: true},
+	"(*math/big.Int).Exp": {3: true},
+}
+
+var numLibMayReturnNil = map[string]bool{
+	"(*math/big.Int).ModInverse": true, "(*math/big.Int).ModSqrt": true, "(*math/big.Int).SetString": true,
+	"(*math/big.Int).Sqrt": false,
+}
+
+func (f *frame) numLibCall(at ssa.Instruction, fn *ssa.Function, args []T, c *ssa.CallCommon, st *State) ([]T, bool) {
+	e := f.e
+	if fn.Pkg == nil || !numLibPkgs[fn.Pkg.Pkg.Path()] {
+		return nil, false
+	}
+	name := fn.String()
+	e.assumed["A-LIB-NUM: "+name] = true
+	sig := fn.Signature
+	for i, a := range args {
+		if i >= len(c.Args) {
+			break
+		}
+		if _, ok := c.Args[i].Type().Underlying().(*types.Pointer); !ok {
+			continue
+		}
+		if numLibNilOK[name][i] {
+			continue
+		}
+		f.safety(at, "lib-nil-arg", st, "(not (= "+a.S+" 0))")
+	}
+	// byte slices handed over to these methods are written
+	writes := map[string]bool{"FillBytes": true, "Read": true}
+	for i, a := range args {
+		if !writes[fn.Name()] {
+			break
+		}
+		if i >= len(c.Args) {
+			break
+		}
+		if sl, ok := c.Args[i].Type().Underlying().(*types.Slice); ok {
+			if h, hs := f.elemHeap(sl.Elem()); h != "" {
+				oldH := e.H(st, h, hs)
+				fr := e.fresh("elems", "(Array Int "+e.sortOf(sl.Elem())+")")
+				e.setHeap(st, h, hs, "(store "+oldH+" "+sarrOf(a.S)+" "+fr+")")
+			}
+
+		}
+	}
+	f.bumpW(st)
+	rs := f.freshResults(sig, st)
+	if n := fn.Name(); n == "BitLen" || n == "TrueLen" || n == "AnnouncedLen" {
+		if len(rs) == 1 && rs[0].Sort == "Int" {
+			e.assume(implies(st.cond, "(>= "+rs[0].S+" 0)"))
+		}
+	}
+	for i, r := range rs {
+		if _, ok := sig.Results().At(i).Type().Underlying().(*types.Pointer); ok && !numLibMayReturnNil[name] {
+			e.assume(implies(st.cond, "(not (= "+r.S+" 0))"))
+		}
+	}
+	return rs, true
 }
 
 func (f *frame) bumpW(st *State) {
@@ -706,6 +792,16 @@ func (e *Enc) modAllows(ct *Contract, name string) bool {
 	return false
 }
 
+var mkSliceRe = regexp.MustCompile(`^\(mk_slice (a!\d+) `)
+
+// sarrOf simplifies (sarr (mk_slice a ...)) to a.
+func sarrOf(s string) string {
+	if m := mkSliceRe.FindStringSubmatch(s); m != nil {
+		return m[1]
+	}
+	return "(sarr " + s + ")"
+}
+
 // havocPattern: "T.f" (field heap of struct type T of the contract's package), "maps", "chans", "elems", "W"
 func (f *frame) havocPattern(st *State, pat string, ct *Contract, env *specEnv) {
 	e := f.e
@@ -749,6 +845,26 @@ func (f *frame) havocPattern(st *State, pat string, ct *Contract, env *specEnv) 
 	}
 	if strings.HasPrefix(pat, "heap:") {
 		e.havoc(st, strings.TrimPrefix(pat, "heap:"))
+		return
+	}
+	if strings.HasPrefix(pat, "elems(") && strings.HasSuffix(pat, ")") {
+		// contents of the backing array of a slice parameter
+		pn := pat[6 : len(pat)-1]
+		v, ok := env.vars[pn]
+		if !ok || v.Sort != "Slice" {
+			e.note("modifies: elems of unknown slice " + pn)
+			return
+		}
+		stp, ok := v.Go.Underlying().(*types.Slice)
+		if !ok {
+			return
+		}
+		if h, hs := f.elemHeap(stp.Elem()); h != "" {
+			oldH := e.H(st, h, hs)
+			inner := "(Array Int " + e.sortOf(stp.Elem()) + ")"
+			fr := e.fresh("elems", inner)
+			e.setHeap(st, h, hs, "(store "+oldH+" "+sarrOf(v.S)+" "+fr+")")
+		}
 		return
 	}
 	e.note("modifies: unsupported pattern " + pat)
@@ -812,21 +928,23 @@ func (f *frame) builtin(at ssa.Instruction, b *ssa.Builtin, c *ssa.CallCommon, a
 			implies(not(and(inplace, "(not (= (sarr "+s.S+") 0))")), and("(= (sarr "+r.S+") "+a+")", "(= (soff "+r.S+") 0)", "(>= (scap "+r.S+") "+nl+")")),
 			implies("(= "+nl+" 0)", "(= (sarr "+r.S+") (sarr "+s.S+"))"))))
 		if h, hs := f.elemHeap(stp.Elem()); h != "" {
-			// element contents: prefix preserved, appended element known for the single-element case
+			// element contents: prefix preserved, appended elements copied, other arrays untouched;
+			// quantifiers range over absolute positions of the new array so that the select term is a usable trigger
 			oldH := e.H(st, h, hs)
 			e.havoc(st, h)
 			newH := e.H(st, h, hs)
-			e.declFun("elems_pres", []string{hs, hs, "Int"}, "Bool")
-			_ = oldH
-			_ = newH
-			// other arrays untouched is not expressible without quantifiers: approximate by
-			// keeping protected references' arrays when they differ from the target
-			q := e.fresh("qi", "Int")
-			_ = q
-			e.assume(implies(st.cond, "(forall ((r Int)) (=> (and (not (= r (sarr "+r.S+")))) (= (select "+newH+" r) (select "+oldH+" r))))"))
-			e.assume(implies(st.cond, "(forall ((k Int)) (=> (and (<= 0 k) (< k (slen "+s.S+"))) (= (select (select "+newH+" (sarr "+r.S+")) (+ (soff "+r.S+") k)) (select (select "+oldH+" (sarr "+s.S+")) (+ (soff "+s.S+") k)))))"))
+			ra, ro := "(sarr "+r.S+")", "(soff "+r.S+")"
+			e.assume(implies(st.cond, "(forall ((r Int)) (! (=> (not (= r "+ra+")) (= (select "+newH+" r) (select "+oldH+" r))) :pattern ((select "+newH+" r))))"))
+			e.assume(implies(st.cond, "(forall ((p Int)) (! (=> (and (<= "+ro+" p) (< p (+ "+ro+" (slen "+s.S+")))) (= (select (select "+newH+" "+ra+") p) (select (select "+oldH+" (sarr "+s.S+")) (+ (- p "+ro+") (soff "+s.S+"))))) :pattern ((select (select "+newH+" "+ra+") p))))"))
+			// positions of the new array beyond the written part keep their old contents when appending in place
 			if t.Sort == "Slice" {
-				e.assume(implies(st.cond, "(forall ((k Int)) (=> (and (<= 0 k) (< k (slen "+t.S+"))) (= (select (select "+newH+" (sarr "+r.S+")) (+ (soff "+r.S+") (slen "+s.S+") k)) (select (select "+oldH+" (sarr "+t.S+")) (+ (soff "+t.S+") k)))))"))
+				if n, ok := staticSliceLen(t.S); ok && n <= 8 {
+					for k := 0; k < n; k++ {
+						e.assume(implies(st.cond, "(= (select (select "+newH+" "+ra+") (+ "+ro+" (slen "+s.S+") "+fmt.Sprint(k)+")) (select (select "+oldH+" (sarr "+t.S+")) (+ (soff "+t.S+") "+fmt.Sprint(k)+")))"))
+					}
+				} else {
+					e.assume(implies(st.cond, "(forall ((p Int)) (! (=> (and (<= (+ "+ro+" (slen "+s.S+")) p) (< p (+ "+ro+" (slen "+r.S+")))) (= (select (select "+newH+" "+ra+") p) (select (select "+oldH+" (sarr "+t.S+")) (+ (- p (+ "+ro+" (slen "+s.S+"))) (soff "+t.S+"))))) :pattern ((select (select "+newH+" "+ra+") p))))"))
+				}
 			}
 		}
 		return []T{r}
@@ -863,6 +981,11 @@ func (f *frame) builtin(at ssa.Instruction, b *ssa.Builtin, c *ssa.CallCommon, a
 		e.setHeap(st, d, ds, "(store "+dh+" "+m.S+" (store (select "+dh+" "+m.S+") "+args[1].S+" false))")
 		return nil
 	case "panic":
+		if f.ct != nil && f.ct.PanicAssumed {
+			f.e.assumed["documented panic of "+f.ct.Rel+" assumed unreachable under its requires (trusted numeric link)"] = true
+			st.cond = "false"
+			return nil
+		}
 		f.safety(at, "panic", st, "false")
 		st.cond = "false"
 		return nil
@@ -887,3 +1010,94 @@ func (f *frame) builtin(at ssa.Instruction, b *ssa.Builtin, c *ssa.CallCommon, a
 }
 
 var _ = fmt.Sprint
+
+// parallelize gives Pool.Parallelize(count, f) its higher-order meaning: f is run for every
+// 0 <= i < count (in any order, possibly concurrently: interference between different i is
+// assumption A-PAR); the body is executed symbolically once for an arbitrary i, everything it
+// may write is havocked, and the results have the dynamic type f returns.
+func (f *frame) parallelize(at ssa.Instruction, c *ssa.CallCommon, args []T, st *State) ([]T, bool) {
+	e := f.e
+	var fn *ssa.Function
+	var mc *ssa.MakeClosure
+	switch v := c.Args[2].(type) {
+	case *ssa.MakeClosure:
+		mc = v
+		fn, _ = v.Fn.(*ssa.Function)
+	case *ssa.Function:
+		fn = v
+	}
+	if fn == nil || len(fn.Blocks) == 0 || f.inStack(fn) {
+		return nil, false
+	}
+	e.assumed["A-PAR: closures run by Pool.Parallelize do not interfere with each other ("+relName(fn)+")"] = true
+	count := args[1]
+	// 1. probe: what does one call write?
+	snap := e.snap()
+	wl := len(e.wlog)
+	e.probe++
+	ps := st.clone()
+	pi := f.freshVal("par_i", types.Typ[types.Int], ps)
+	savedRets, savedDefers := len(f.rets), len(f.defers)
+	f.inline(at, fn, []T{pi}, mc, ps)
+	changed := map[string]bool{}
+	for cl := 0; cl < 2; cl++ {
+		if ps.base[cl] != st.base[cl] {
+			changed[fmt.Sprintf("*class%d", cl)] = true
+		}
+	}
+	for k := range ps.heap {
+		if e.ver(ps, k) != e.ver(st, k) {
+			changed[k] = true
+		}
+	}
+	delete(changed, "EXCL")
+	f.analyseWrites(wl, snap.nfresh, changed)
+	e.probe--
+	if e.probe == 0 {
+		e.wlog = e.wlog[:wl]
+	}
+	e.rollback(snap)
+	f.rets, f.defers = f.rets[:savedRets], f.defers[:savedDefers]
+	// 2. havoc what the calls may write
+	var cl []string
+	for k := range changed {
+		cl = append(cl, k)
+	}
+	sort.Strings(cl)
+	if os.Getenv("GOVC_DEBUG") != "" {
+		fmt.Fprintf(os.Stderr, "parallelize %s: changed=%v freshOnly=%v notAlloc=%v badIdx=%v idx=%v np=%v\n", relName(fn), cl, f.freshOnly, f.notAlloc, f.badIdx, f.idxTerms, f.npBump)
+	}
+	f.havocChanged(st, cl)
+	// 3. one symbolic call, for its obligations
+	body := st.clone()
+	i := f.freshVal("par_i", types.Typ[types.Int], body)
+	e.assume(implies(body.cond, and("(<= 0 "+i.S+")", "(< "+i.S+" "+count.S+")")))
+	f.inline(at, fn, []T{i}, mc, body)
+	f.bumpW(st)
+	// 4. results
+	rt := c.Signature().Results().At(0).Type()
+	res := f.freshVal("par_res", rt, st)
+	e.assume(implies(st.cond, and("(= (slen "+res.S+") "+count.S+")", "(not (= (sarr "+res.S+") 0))")))
+	var dyn types.Type
+	uniform := true
+	for _, b := range fn.Blocks {
+		for _, ins := range b.Instrs {
+			if r, ok := ins.(*ssa.Return); ok && len(r.Results) == 1 {
+				mi, ok := r.Results[0].(*ssa.MakeInterface)
+				if !ok || (dyn != nil && !types.Identical(dyn, mi.X.Type())) {
+					uniform = false
+					continue
+				}
+				dyn = mi.X.Type()
+			}
+		}
+	}
+	if uniform && dyn != nil {
+		h, hs := f.elemHeap(rt.Underlying().(*types.Slice).Elem())
+		pos := e.fresh("pos", "Int")
+		_ = pos
+		e.assume(implies(st.cond, "(forall ((ppos Int)) (=> (and (<= (soff "+res.S+") ppos) (< ppos (+ (soff "+res.S+") (slen "+res.S+")))) "+
+			f.hasType("(select (select "+e.H(st, h, hs)+" (sarr "+res.S+")) ppos)", dyn)+"))"))
+	}
+	return []T{res}, true
+}
